@@ -21,7 +21,10 @@ R3 exactly one probe: while the call admitted as the half-open probe is still
    and is tolerated); a record issued by a call that was never admitted, or had
    already settled, must not release the slot
 R4 records while HALF_OPEN / OPEN: a successful probe closes with an empty
-   history, a failed probe re-opens with a fresh timeout
+   history, a failed probe re-opens with a fresh timeout -- also at call level:
+   a probe call that ends in success must have closed the circuit, one that ends
+   in failure (any stop reason but abort/cancel, including a deferred retry) must
+   have re-opened it
 """
 from __future__ import annotations
 
@@ -54,7 +57,8 @@ def gen(seed, tier="quick"):
     x = r.random()
     if x < 0.35:
         cfg = BC.gen_breaker_cfg(r)
-        return {"kind": "breaker_hist", "grid": BC.U, "seed": seed, "cfg": cfg, "ops": BC.gen_breaker_ops(r, cfg), "base_us": r.choice([0, 8 * BC.U, 4096 * BC.U])}
+        return {"kind": "breaker_hist", "grid": BC.U, "seed": seed, "cfg": cfg, "ops": BC.gen_breaker_ops(r, cfg), "base_us": r.choice([0, 8 * BC.U, 4096 * BC.U]),
+                "sibling": BC.maybe_sibling(r, cfg)}
     if x < 0.65:
         return BC.gen_policy_history(seed, {"max_calls": 8, "p_abort": 0.2}, modes=("sync", "async"))
     return BC.gen_policy_history(seed, {"max_calls": 6, "p_abort": 0.2}, modes=("async",), concurrent=True)
